@@ -817,4 +817,11 @@ def faults(ctx, ch):
                 exc = ERR[short]
                 out.append({"kind": kind, "k": kk, "when": "before",
                             "exc": "ValueError" if exc == "EOF" else exc})
+                if kk % 2 == 0 and short not in ("seek", "open"):
+                    # the type of the failure must not matter to the clean-up (the image
+                    # iterator itself catches AttributeError for its own purposes); not at
+                    # seek: PIL probes `is_animated` / `n_frames` by seeking inside property
+                    # getters, where Python itself turns an AttributeError into "no such
+                    # attribute"
+                    out.append({"kind": kind, "k": kk, "when": "before", "exc": "AttributeError"})
     return out
